@@ -24,6 +24,7 @@ fn guarded<F: FnOnce() -> (bool, String) + panic::UnwindSafe>(f: F) -> (bool, bo
 }
 
 mod ctapmap;
+mod pslenum;
 mod u2f;
 mod hid;
 mod status;
@@ -57,6 +58,7 @@ fn main() {
         "rpid-android" => guarded(move || rpid::android(&arg)),
         "origin-text" => guarded(move || rpid::origin_text(&arg)),
         "ctap-map" => guarded(move || ctapmap::run(&arg)),
+        "psl-enumerate" => guarded(move || pslenum::run(&arg)),
         "hid-packets" => guarded(move || hid::packets_no_panic(&arg)),
         "hid-roundtrip" => guarded(move || hid::roundtrip(&arg)),
         _ => (false, false, format!("unknown entry {entry}")),
